@@ -99,19 +99,37 @@ bool Deployer::Run() {
     message_sink_("deploy", !failure ? "success" : "failure");
     // new tasks could have been enqueued while we were sending the message.
     // before quitting, double check if there is nothing left to do.
-  } while (HasPendingTasks());
+  } while (!FinishWork());
   return !failure;
 }
 
+// called when the work thread has run out of tasks.
+// unless more tasks have been enqueued in the meantime, marks the work as
+// finished, so that tasks scheduled from now on are run by a new work thread
+// instead of being left in the queue of one that is about to exit.
+bool Deployer::FinishWork() {
+  std::lock_guard<std::mutex> lock(mutex_);
+  if (!pending_tasks_.empty())
+    return false;
+  working_ = false;
+  return true;
+}
+
 bool Deployer::StartWork(bool maintenance_mode) {
-  if (IsWorking()) {
-    LOG(WARNING) << "a work thread is already running.";
-    return false;
+  {
+    std::lock_guard<std::mutex> lock(mutex_);
+    if (working_) {
+      LOG(WARNING) << "a work thread is already running.";
+      return false;
+    }
+    maintenance_mode_ = maintenance_mode;
+    if (pending_tasks_.empty()) {
+      return false;
+    }
+    working_ = true;
   }
-  maintenance_mode_ = maintenance_mode;
-  if (pending_tasks_.empty()) {
-    return false;
-  }
+  // the previous work thread, if any, has finished its last task.
+  JoinWorkThread();
 #ifdef RIME_NO_THREADING
   LOG(INFO) << "running " << pending_tasks_.size() << " tasks in main thread.";
   return Run();
